@@ -35,6 +35,19 @@ def og_to_model_pins(g, roots, hashes, urls):
     return out
 
 
+def _layout(rng):
+    r = rng.random()
+    return True if r < 0.45 else (False if r < 0.7 else None)
+
+
+def effective_layout(o):
+    """the layout the options ask for: an unspecified layout is the multi-line one as soon as hashes or URLs are
+    written (the only layout that can carry them), the one-line one otherwise"""
+    if o["multiline"] is None:
+        return bool(o["hashes"] or o["urls"])
+    return o["multiline"]
+
+
 class RoundTripStream(Stream):
     name = "roundtrip"
     quick_n = 500
@@ -62,7 +75,9 @@ class RoundTripStream(Stream):
         ]
 
     def generate(self, rng):
-        return {"og": TL.gen_og(rng), "opts": {"multiline": rng.random() < 0.6, "hashes": rng.random() < 0.6, "urls": rng.random() < 0.5,
+        # the layout option has three values: asked for, refused, and not given (what the command line passes when
+        # neither --multiline nor --no-multiline is there: the writer then picks the layout from the other options)
+        return {"og": TL.gen_og(rng), "opts": {"multiline": _layout(rng), "hashes": rng.random() < 0.6, "urls": rng.random() < 0.5,
                                                "annotate_source": rng.random() < 0.2}}
 
     def impl(self, case):
@@ -145,7 +160,9 @@ class RoundTripStream(Stream):
 
     def flags(self, case, r):
         o = case["opts"]
-        fl = ["multi-line" if o["multiline"] else "one-line"]
+        fl = ["multi-line" if effective_layout(o) else "one-line"]
+        if o["multiline"] is None:
+            fl.append("layout-not-given")
         for k in ("hashes", "urls", "annotate_source"):
             if o[k]:
                 fl.append(k)
@@ -222,7 +239,8 @@ class RoundTripStream(Stream):
 
     @staticmethod
     def _region(case, r):
-        o = case["opts"]
+        o = dict(case["opts"])
+        o["multiline"] = effective_layout(o)
         if not o["multiline"] and o["urls"]:
             return "one-line-with-urls"
         if not o["multiline"]:
@@ -304,7 +322,7 @@ class RealFindLinksRoundTrip(RoundTripStream):
         for p in og["pins"]:
             p["link"] = None
             p["hash"] = None
-        return {"og": og, "opts": {"multiline": rng.random() < 0.6, "hashes": True, "urls": False, "annotate_source": rng.random() < 0.2}}
+        return {"og": og, "opts": {"multiline": _layout(rng), "hashes": True, "urls": False, "annotate_source": rng.random() < 0.2}}
 
     def _solve(self, case):
         import hashlib
